@@ -130,13 +130,13 @@ class BasicBlock:
             assert isinstance(target, Symbol)
             if self._config.common_subexpression_elimination:
                 expr = simplify(expr)
-            cc_expr = ccode(expr)
+            cc_expr = ccode(common.evaluate_large_integers(expr))
             yield MemberDeclaration("double", target, cc_expr)
 
         for target, expr in zip(self._targets, body):
             if self._config.common_subexpression_elimination:
                 expr = simplify(expr)
-            cc_expr = ccode(expr)
+            cc_expr = ccode(common.evaluate_large_integers(expr))
             yield MemberDeclaration("", target, cc_expr)
 
 
